@@ -103,8 +103,8 @@ func (s *CollapsingLowestDenseStore) adjust(newMinIndex, newMaxIndex int) {
 	if newMaxIndex-newMinIndex+1 > len(s.bins) {
 		// The range of indices is too wide, buckets of lowest indices need to be collapsed.
 		newMinIndex = newMaxIndex - len(s.bins) + 1
-		if newMinIndex >= s.maxIndex {
-			// There will be only one non-empty bucket.
+		if s.IsEmpty() || newMinIndex >= s.maxIndex {
+			// There will be only one non-empty bucket (or none yet, if the store is empty).
 			s.bins = make([]float64, len(s.bins))
 			s.offset = newMinIndex
 			s.minIndex = newMinIndex
